@@ -68,6 +68,22 @@
 (* found) must violate Disciplined, and must not with the narrow environment in which the attester        *)
 (* returns no attestations.                                                                               *)
 (*                                                                                              *)
+(* Group builderclients (fifth round: SIBLING code paths).  The relay clients are ONE process-wide   *)
+(* map (util.builders, lock util.buildersMu) behind the shared helper util.FetchBuilderClient, which   *)
+(* every path that talks to a relay goes through on a goroutine of its own: the registration round      *)
+(* (one goroutine per relay), the auctions of BOTH builder-bid strategies (best, deadline: one fetch    *)
+(* per relay of the proposer), the REST requests (BuilderBid, UnblindBlock, ValidatorRegistrations).    *)
+(* The helper is a specification action with its own state: known = the relays that have a client;     *)
+(* a fetch of a relay NEW to the process writes the map, a fetch of a known relay only reads it - the   *)
+(* rendering of a call depends on what earlier calls of the history left in the map (carry).  The       *)
+(* execution configuration (cfg: the relays of every proposer) is refreshed between the prologue and    *)
+(* the overlap: it names relays that are new to the process, or (control) only known ones.              *)
+(* AliasWrite = "builder-client-fast-path" renders the class "a known client is handed out BEFORE the   *)
+(* lock is taken" (double-checked locking): TLC must reject it (MC_Concurrency_fastpath_builders.cfg),  *)
+(* and must ACCEPT it in the narrow environment in which every relay is known before the overlap        *)
+(* (MC_Concurrency_fastpath_builders_known.cfg: what a driver that registers its fake relay clients     *)
+(* in the map up front looks at - the reason why the earlier versions of this check were blind to it).  *)
+(*                                                                                              *)
 (* The groups are derived from the goroutine families that main.go wires up (scheduler jobs,      *)
 (* event handlers of the beacon nodes' streams, periodic refreshers, start-up goroutines and the   *)
 (* REST daemon that serves the beacon nodes' MEV-boost requests) x the shared fields of every      *)
@@ -91,7 +107,7 @@ CONSTANTS Groups,     \* the groups explored by this configuration (subset of Al
                       \* every data record (the code); "slot" = a copy per duty (control design)
           AliasWrite, \* groups syncduty, attinfo: the class of change rendered - who writes an object it was handed: "none" (the
                       \* code), "message-indices", "prepare-indices", "verify-indices", "schedule-accounts" (syncduty),
-                      \* "job-subscription-entries" (attinfo)
+                      \* "job-subscription-entries" (attinfo), "builder-client-fast-path" (builderclients)
           MaxPar      \* maximal number of overlapping operations in a schedule (3)
 
 AllGroups == {"wallet", "blockrelay", "messenger", "controller", "cache", "validators", "attester",
@@ -105,7 +121,11 @@ AllGroups == {"wallet", "blockrelay", "messenger", "controller", "cache", "valid
               \* attestation jobs of the slots of one epoch read the ENTRIES of the epoch's subscription info (one map,
               \* published through controller.subscriptionInfos) without the lock || head events (old epochs removed,
               \* node 2: a refresh publishes a new one)
-              "attinfo"}
+              "attinfo",
+              \* the process-wide map of relay clients behind util.FetchBuilderClient: registration round (real block
+              \* relay) || auctions of both builder-bid strategies || direct fetches (the REST requests' loop), with relays
+              \* that are NEW to the process
+              "builderclients"}
 
 -----------------------------------------------------------------------------
 (* ---------------------------- part (a): sequential meaning -------------------------------- *)
@@ -269,6 +289,9 @@ SeqInits(g) ==
       \* the controller has just started: the prepare jobs of the period's slots are scheduled
       [] g = "syncduty" -> {SyncInit}
       [] g = "attinfo" -> {[seen |-> 0]}
+      \* every history works on relays of its own (addresses new to the process): no client is known, no relay configured
+      \* (or the state the prologue leaves: relay 1 configured, its client created by the initial round)
+      [] g = "builderclients" -> {[cfg |-> {}, known |-> {}], [cfg |-> {1}, known |-> {1}]}
 
 \* Start states of the exhaustive runs.  Group dirk: a FRESH instance (nothing published, nothing known) - every
 \* other state of SeqInits is reached by a history of calls (recorded histories may start in any of them: the
@@ -281,7 +304,8 @@ StartInits(g) ==
 
 \* The part of the instance's history that the RENDERING of a call (its accesses) may depend on.  Everything else
 \* an operation does is independent of what earlier calls left behind.
-Carried(g, st) == IF g = "dirk" THEN st.pub > 0 ELSE FALSE
+\* (group builderclients: the relays that have a client, and the relays of the active configuration.)
+Carried(g, st) == IF g = "dirk" THEN st.pub > 0 ELSE IF g = "builderclients" THEN st ELSE FALSE
 
 Put(f, k, v) == [x \in (DOMAIN f) \cup {k} |-> IF x = k THEN v ELSE f[x]]
 Drop(f, D) == [x \in (DOMAIN f) \ D |-> f[x]]
@@ -363,6 +387,19 @@ Apply(g, st, o) ==
               [] o.op = "Refresh" ->
                     {[st |-> IF st.offer = {} THEN st ELSE [st EXCEPT !.known = st.offer, !.pub = 1], res |-> 0]}
               [] OTHER (* Query *) -> {[st |-> st, res |-> Mask(st.known)]}
+      [] g = "builderclients" ->
+            \* Config(R): the configuration refresh finds the relays R (for every proposer).  Round: a registration
+            \* round - res = the relays that received the registration = all configured ones.  Bid(s): an auction of
+            \* strategy s for a proposer - res = the relays that were asked for a bid: all configured ones (best: it
+            \* waits for every relay), any of them (deadline: the deadline may pass before a relay was asked - C17 does not
+            \* say).  Fetch(r): the helper itself (the loop of UnblindBlock / ValidatorRegistrations) - res = 1: a client,
+            \* and the SAME client as every other fetch of the history got for relay r (one client per relay).
+            \* Every one of them leaves a client for each relay it fetched.
+            CASE o.op = "Config" -> {[st |-> [st EXCEPT !.cfg = o.x], res |-> 0]}
+              [] o.op = "Round" -> {[st |-> [st EXCEPT !.known = @ \cup st.cfg], res |-> Mask3(st.cfg)]}
+              [] o.op = "Bid" -> {[st |-> [st EXCEPT !.known = @ \cup st.cfg], res |-> Mask3(S)] :
+                                     S \in IF o.s = "deadline" THEN SUBSET st.cfg ELSE {st.cfg}}
+              [] OTHER (* Fetch *) -> {[st |-> [st EXCEPT !.known = @ \cup {o.r}], res |-> 1]}
 
 \* One linearization point of a call: the calls of every group but syncduty have ONE (phase 1, then done = 0).
 ApplyPh(gg, s, o, ph, res, k) ==
@@ -379,6 +416,8 @@ Prologue(g) ==
       [] g = "cache" -> <<[op |-> "BlockEvent", r |-> 1]>>
       \* the first refresh of the history: every overlapping refresh is a second or later one of its instance
       [] g = "dirk" -> <<[op |-> "Offer", x |-> {1, 2}], [op |-> "Refresh", first |-> 1]>>
+      \* start-up: relay 1 is configured, the initial registration round creates its client
+      [] g = "builderclients" -> <<[op |-> "Config", x |-> {1}], [op |-> "Round"]>>
       [] OTHER -> <<>>
 
 \* environment changes made between prologue and the overlapping operations (TLC picks one)
@@ -400,6 +439,9 @@ Twists(g) ==
       [] g = "bidstrategy" -> {<<>>, <<[op |-> "Bid", s |-> "best"], [op |-> "Bid", s |-> "deadline"]>>}
       \* the accounts the by-index lookup knows x the message job of the previous slot has run / is late
       [] g = "syncduty" -> {SyncPrologue(a, l) : a \in AcctA, l \in BOOLEAN}
+      \* the configuration refresh finds two relays that are new to the process / finds nothing new (control: every
+      \* client exists before the overlap - all that a driver with pre-registered relay clients ever runs)
+      [] g = "builderclients" -> {<<[op |-> "Config", x |-> {1, 2, 3}]>>, <<>>}
       [] OTHER -> {<<>>}
 
 \* the operations production overlaps
@@ -440,6 +482,10 @@ ParOps(g) ==
       \* the job looks the aggregator up in the epoch's subscription info, then its account) || head events
       [] g = "attinfo" -> {[op |-> "Job", s |-> s, att |-> a, acct |-> c] : s \in 1..2, a \in AttA, c \in JobAcctA}
                           \cup {[op |-> "Head", node |-> 1], [op |-> "Head", node |-> 2]}
+      \* registration round || auction (either strategy) || the helper called directly for a known relay (1) / for one
+      \* that is new after the refresh (3)
+      [] g = "builderclients" -> {[op |-> "Round"], [op |-> "Bid", s |-> "best"], [op |-> "Bid", s |-> "deadline"],
+                                  [op |-> "Fetch", r |-> 1], [op |-> "Fetch", r |-> 3]}
 
 AllOps(g) == ParOps(g) \cup {Prologue(g)[i] : i \in DOMAIN Prologue(g)}
                        \cup UNION {{t[i] : i \in DOMAIN t} : t \in Twists(g)}
@@ -448,7 +494,7 @@ Count(s, x) == Cardinality({i \in DOMAIN s : s[i] = x})
 
 \* overlap patterns: 1..Width(g) operations in gate-release order, at most two instances of each
 \* (group restcfg has five operations and two environment twists: pairs)
-Width(g) == IF g \in {"restcfg", "dirk", "syncduty", "attinfo"} /\ MaxPar > 2 THEN 2 ELSE MaxPar
+Width(g) == IF g \in {"restcfg", "dirk", "syncduty", "attinfo", "builderclients"} /\ MaxPar > 2 THEN 2 ELSE MaxPar
 Schedules(g) ==
     {s \in UNION {[1..n -> ParOps(g)] : n \in 1..Width(g)} :
         /\ \A x \in ParOps(g) : Count(s, x) <= 2
@@ -571,6 +617,25 @@ DirkSteps(o, carry) ==
     THEN DirkKeysSnapshot \o <<Acc("dirk.accounts", "R", R("dirk.mutex"))>>
     ELSE <<>>
 
+\* util.FetchBuilderClient for relay r.  carry.known = the relays that had a client when the call was invoked: a
+\* fetch of a known relay reads the map, a fetch of a new one reads it and inserts the client it creates - all under
+\* util.buildersMu.  Class builder-client-fast-path: the first look at the map is made BEFORE the lock is taken (a
+\* known client is handed out directly), the look under the lock and the insertion follow for a new relay.
+FetchClient(r, carry) ==
+    IF AliasWrite = "builder-client-fast-path"
+    THEN <<Acc("util.builders", "R", None)>>
+         \o (IF r \in carry.known THEN <<>>
+             ELSE <<Acc("util.builders", "R", W("util.buildersMu")), Acc("util.builders", "W", W("util.buildersMu"))>>)
+    ELSE <<Acc("util.builders", "R", W("util.buildersMu"))>>
+         \o (IF r \in carry.known THEN <<>> ELSE <<Acc("util.builders", "W", W("util.buildersMu"))>>)
+\* the relays an operation fetches a client for: the configured ones (registration round: a goroutine per relay;
+\* auction: the loop of the strategy - rendered one after the other), or the one named
+BuilderSteps(o, carry) ==
+    LET F(r) == IF r \in carry.cfg THEN FetchClient(r, carry) ELSE <<>> IN
+    CASE o.op \in {"Round", "Bid"} -> F(1) \o F(2) \o F(3)
+      [] o.op = "Fetch" -> FetchClient(o.r, carry)
+      [] OTHER -> <<>>
+
 \* The accesses of every operation, in program order, with the locks held at the access.
 Steps(g, o) ==
     CASE g = "wallet" ->
@@ -636,6 +701,7 @@ Steps(g, o) ==
               Acc("builderbid.relayPubkeys", "W", W("builderbid.relayPubkeysMu"))>>
       [] g = "dirk" -> DirkSteps(o, FALSE)          \* (the rendering of a call of a history: StepsOf)
       [] g = "syncduty" -> <<>>                     \* no lock to render: part (c), Touch
+      [] g = "builderclients" -> BuilderSteps(o, [cfg |-> {}, known |-> {}])   \* (the rendering of a call of a history: StepsOf)
       [] g = "attinfo" ->
             IF o.op = "Head"
             THEN <<Acc("controller.reorgFields", "W", W("controller.reorgMu")),
@@ -672,7 +738,9 @@ Init ==
     /\ lin = <<>>
 
 Active == {i \in DOMAIN calls : calls[i].in}
-StepsOf(i) == IF g = "dirk" THEN DirkSteps(calls[i].op, calls[i].carry) ELSE Steps(g, calls[i].op)
+StepsOf(i) == IF g = "dirk" THEN DirkSteps(calls[i].op, calls[i].carry)
+              ELSE IF g = "builderclients" THEN BuilderSteps(calls[i].op, calls[i].carry)
+              ELSE Steps(g, calls[i].op)
 AccessOf(i) == StepsOf(i)[calls[i].pc]
 
 Conflicts(h1, h2) ==      \* lock sets that cannot be held at the same time
@@ -848,4 +916,11 @@ ReuseProbe ==
     /\ Bounded /\ st.offer = {1, 2}
     /\ \A i \in DOMAIN calls : calls[i].op \in {[op |-> "Refresh", first |-> 1], [op |-> "Query", kind |-> "by_key"]}
     /\ Cardinality({i \in DOMAIN calls : calls[i].op.op = "Query"}) <= 1
+
+\* state constraint of the control of class builder-client-fast-path: the NARROW environment - no configuration
+\* refresh during the history, the helper is not asked for a relay outside the configuration: histories from the
+\* state the prologue leaves (relay 1 configured, its client known) in which every fetch finds its client
+KnownProbe ==
+    /\ Bounded /\ 1 \in st.known
+    /\ \A i \in DOMAIN calls : calls[i].op.op # "Config" /\ (calls[i].op.op = "Fetch" => calls[i].op.r = 1)
 =============================================================================
